@@ -445,9 +445,12 @@ CLAIMED['C04'] = dict(
          '_Parser.parse\'s dispatch order; exact integer / dyadic arithmetic) against Spec/Expr.lean '
          '(the value MongoDB defines) on the domain D = Spec/ExprDomain.lean (exclusion classes '
          'as named reasons): eval_eq_spec_partial (for every expression tree of any depth and '
-         'every document in D the code\'s value is the oracle\'s) and expr_filter_eq_spec_partial '
-         '(the same for $expr in a filter); the full statements are refuted by kernel-checked '
-         'witnesses that are known findings. For all inputs: $literal is the identity; '
+         'every document in D the code\'s value is the oracle\'s; its full statement is refuted '
+         'by a kernel-checked witness that is a known finding) and expr_filter_eq_spec_partial '
+         '(the same for $expr in a filter, on the same D); expr_filter_spec, for ALL expressions '
+         'and documents: find({$expr: e}) selects d iff the value of e on d is truthy, a missing '
+         'value being false (full strength since the repairs of exprtruth / exprmissing in '
+         '/repo). For all inputs: $literal is the identity; '
          'truthiness is MongoDB\'s (false, null, 0 only); $not/$and/$or, $cond (both forms), '
          '$ifNull (null or missing skipped, last operand is the fallback), $switch (first truthy '
          'case, else default); null/missing propagates through unary, binary and n-ary '
@@ -464,11 +467,16 @@ CLAIMED['C04'] = dict(
          'find({$expr: e}) must equal the per-document matcher and $project must equal $addFields.',
     note='Theorem fragment: paths and variables, constant arrays, document literals, $literal, ten '
          'arithmetic operators, six comparisons, $not $and $or, $cond, $ifNull, $switch, $let, $map, '
-         '$filter, $size, $concatArrays, $concat, $arrayElemAt, $isArray, $isNumber, ten date parts; '
-         '$cmp $toLower $toUpper $strcasecmp $toString $in are in the oracle and cross-checked at '
-         'run time but outside the theorem (reason unproved:<op>); set / accumulator / string '
-         'slicing / math operators are modelled (correspondence) without oracle. 21 known findings '
-         '(see known_findings.json), each with a witness replayed on every run.')
+         '$filter, $size, $concatArrays, $concat, $arrayElemAt, $strcasecmp, $toLower, $toUpper, '
+         '$toString, $isArray, $isNumber, ten date parts; $cmp $in are in the oracle and '
+         'cross-checked at run time but outside the theorem (reason unproved:<op>); set / '
+         'accumulator / string slicing / math operators are modelled (correspondence) without '
+         'oracle. 9 known findings (see known_findings.json), each with a witness replayed on '
+         'every run; 12 further findings (exprtruth, exprmissing, strcasecmp, numtype, adddate, '
+         'concatstr, nullarg, condkeys, undefvar, filtertruth, mapmissing, missingcmp; laxargs in '
+         'part) were repaired in /repo: their exclusion classes are gone from D and their witnesses run as '
+         'ordinary cases. andstrict is kept: C20 relies on an unsupported operator behind a false '
+         '$and operand raising.')
 
 CLAIMED['C13'] = dict(
     technique='Lean 4 theorems about the upsert path of the model of Collection._update '
